@@ -661,10 +661,21 @@ class Sim(object):
             return [8, m.get('term', 0), m['next_node_idx'], 1 if m['reset'] else 0, 1 if m['success'] else 0]
         return [9]
 
+    missing_attrs = set()
+
     def node_state(self, n):
         """canonical state of node n as a flat list of non-negative ints (see coq/Raft/Obs.v)"""
         o = self.nodes[n]
-        g = lambda name: getattr(o, '_SyncObj__' + name)
+        def g(name):
+            # scalar bookkeeping fields a refactoring may rename or drop: the observation then carries a marker (the
+            # digest differs from the model's, so the correspondence reports it) and the trace goes on under the monitors
+            try:
+                return getattr(o, '_SyncObj__' + name)
+            except AttributeError:
+                if name in TOLERATED_MISSING:
+                    self.missing_attrs.add(name)
+                    return MISSING
+                raise
         log = g('raftLog')
         ser = g('serializer')
         sg = lambda name: getattr(ser, '_Serializer__' + name)
@@ -735,6 +746,12 @@ class Sim(object):
 
     def queue_len(self, a, b):
         return len(self.chan.get((a, b), ()))
+
+
+MISSING = 987654321
+TOLERATED_MISSING = ('noopIDx', 'changeClusterIDx', 'leaderCommitIndex', 'onReadyCalled', 'newAppendEntriesTime',
+                     'forceLogCompaction', 'lastSerializedTime', 'lastSerializedEntry', 'commandsLocalCounter', 'votesCount',
+                     'enabledCodeVersion', 'needLoadDumpFile')
 
 
 def exc_code(e):
